@@ -152,6 +152,11 @@ def blks(ch) -> tuple:
 
 
 def tree(md: str):
+    if md.startswith("---"):
+        # a frontmatter block is not Markdown (C07 judges it); documents that BEGIN with a thematic break are not generated
+        fm_, body = split_frontmatter_ref(md)
+        if fm_:
+            md = body
     return blk(flowmark_markdown().parse(md))
 
 
